@@ -473,7 +473,8 @@ func (vc *VC) typingVal(v Val) {
 		}
 		vc.rangeFacts[key] = true
 		vc.rangeFacts[v.C[2].id] = true
-		vc.assume(And(Le(Zero, v.C[0]), Le(Zero, v.C[1]), Le(Zero, v.C[2]), Le(Add(v.C[1], v.C[2]), IntK(1<<40))))
+		// (no sign fact on the array id: string constants live at negative ids of StrMem)
+		vc.assume(And(Le(Zero, v.C[1]), Le(Zero, v.C[2]), Le(Add(v.C[1], v.C[2]), IntK(1<<40))))
 	case KPtr:
 		if vc.rangeFacts[key] {
 			return
